@@ -270,6 +270,127 @@ func nilSafe(v reflect.Value) interface{} {
 	return v.Interface()
 }
 
+// TestEncoderReuse: one Encoder writes several messages with Reset (and mode switches) between them, the way a
+// connection-scoped encoder is used. Every message is read on its own, with fresh class and reference tables: it must
+// be well-formed by itself and denote its value.
+func TestEncoderReuse(t *testing.T) {
+	ev.Check(t, "encoder-reuse", ev.N(3000, 200000), func(rt *rapid.T) {
+		n := rapid.IntRange(2, 4).Draw(rt, "messages")
+		o := uni.Opts{NoBadYears: true, NoLaxUTF8: true, NoBigPrec: true, MaxLen: 3}
+		structs := uni.Structs
+		var vals []reflect.Value
+		var modes []bool
+		var between []string
+		for i := 0; i < n; i++ {
+			var ty reflect.Type
+			if rapid.IntRange(0, 2).Draw(rt, "structy") > 0 {
+				ty = rapid.SampledFrom(structs).Draw(rt, "st")
+				if rapid.Bool().Draw(rt, "slice") {
+					ty = reflect.SliceOf(ty)
+				}
+			} else {
+				ty = genType(rt, 2)
+			}
+			vals = append(vals, uni.Gen(rt, ty, 2, o))
+			modes = append(modes, rapid.Bool().Draw(rt, "simple"))
+			between = append(between, rapid.SampledFrom([]string{"Reset", "Reset+ResetBuffer", "Simple-then-Reset"}).Draw(rt, "between"))
+		}
+		var parts []string
+		for i, v := range vals {
+			parts = append(parts, fmt.Sprintf("[simple=%v %s] %s=%s", modes[i], between[i], v.Type(), trunc(uni.FromGo(v).String())[:min(120, len(trunc(uni.FromGo(v).String())))]))
+		}
+		canon := "one encoder: " + strings.Join(parts, " ; ")
+		ev.S.Begin("encoder-reuse", canon)
+		problem := ""
+		var wire []byte
+		func() {
+			defer func() {
+				if e := recover(); e != nil {
+					problem = fmt.Sprintf("encoder panicked: %v", e)
+				}
+			}()
+			enc := new(hio.Encoder)
+			for i, v := range vals {
+				switch between[i] {
+				case "Reset":
+					enc.Simple(modes[i])
+					enc.Reset()
+				case "Reset+ResetBuffer":
+					enc.Simple(modes[i])
+					enc.Reset().ResetBuffer()
+				default:
+					enc.Reset()
+					enc.Simple(modes[i])
+				}
+				before := len(enc.Bytes())
+				if between[i] == "Reset+ResetBuffer" {
+					before = 0
+				}
+				if err := enc.Encode(v.Interface()); err != nil {
+					if strings.Contains(err.Error(), "year") {
+						return
+					}
+					problem = fmt.Sprintf("message %d: encoder error %v", i, err)
+					return
+				}
+				msg := enc.Bytes()[before:]
+				wire = msg
+				nodes, p, err := ref.ParseAll(msg)
+				switch {
+				case err != nil:
+					problem = fmt.Sprintf("message %d is not well-formed on its own: %v", i, err)
+				case len(nodes) != 1:
+					problem = fmt.Sprintf("message %d holds %d values", i, len(nodes))
+				case modes[i] && p.RefTags > 0:
+					problem = fmt.Sprintf("message %d: simple mode emitted a back-reference", i)
+				default:
+					want := uni.FromGo(v)
+					if !ref.EqualOpt(want, nodes[0], ref.Options{NilIsEmpty: true}) {
+						problem = fmt.Sprintf("message %d does not denote what was encoded: first difference at %s", i, ref.Diff(want, nodes[0], ref.Options{NilIsEmpty: true}))
+					}
+				}
+				if problem != "" {
+					return
+				}
+			}
+		}()
+		ev.S.Case("encoder-reuse", canon, true, fmt.Sprintf("reuse-messages=%d", n))
+		if problem == "" {
+			return
+		}
+		var f uni.Features
+		f.Types = map[string]bool{}
+		for _, v := range vals {
+			fi := uni.Describe(v)
+			f.BigInf, f.BigFloat, f.LaxUTF8, f.BadUTF8 = f.BigInf || fi.BigInf, f.BigFloat || fi.BigFloat, f.LaxUTF8 || fi.LaxUTF8, f.BadUTF8 || fi.BadUTF8
+		}
+		detail := fmt.Sprintf("%s\nwire: %q", problem, trunc(string(wire)))
+		if key := classify(f, problem); key != "" {
+			ev.S.Exclude(key, canon+" => "+trunc(detail)[:min(300, len(trunc(detail)))])
+			return
+		}
+		if os.Getenv("VERIF_TRIAGE") != "" {
+			fmt.Printf("TRIAGE %s | %s\n", strings.ReplaceAll(problem, "\n", " // "), canon[:min(300, len(canon))])
+			return
+		}
+		ev.S.Violation("encoder-reuse", "TestEncoderReuse", canon, detail, nil)
+		rt.Fatalf("%s\n=> %s", canon, detail)
+	})
+}
+
+// TestRegressions: inputs of repaired defects.
+func TestRegressions(t *testing.T) {
+	type withErr struct {
+		A int
+		E error
+		B string
+	}
+	for _, simple := range []bool{true, false} {
+		runCase(t, "regressions", "TestRegressions", []reflect.Value{reflect.ValueOf(withErr{1, nil, "z"})}, simple, []bool{false})
+		runCase(t, "regressions", "TestRegressions", []reflect.Value{reflect.ValueOf(&withErr{1, nil, "z"}), reflect.ValueOf([]withErr{{2, nil, "y"}, {3, nil, "x"}})}, simple, []bool{false, true})
+	}
+}
+
 func TestFinding(t *testing.T) {
 	key := ev.FindingKey()
 	if r, ok := reproducers[key]; ok {
